@@ -51,6 +51,17 @@ type tally struct {
 	cases, calls int64
 }
 
+// reported: this signature already has its witness in the current scenario (r.Violation keeps the
+// first one only), so messages and confirmations need not be computed again.
+func reported(r *rep.Report, sig string) bool {
+	for _, v := range r.Violations {
+		if v.Sig == sig && v.Scenario == r.CurName {
+			return true
+		}
+	}
+	return false
+}
+
 func panicClass(where string) string {
 	if i := strings.IndexByte(where, '('); i >= 0 {
 		where = where[:i]
@@ -60,7 +71,11 @@ func panicClass(where string) string {
 
 // evalSpec runs one spec through the builders and all oracles.
 func evalSpec(r *rep.Report, spec Spec, t *tally) {
-	emit := func(sig, msg string) { r.Violation(sig, msg+" | calls: "+spec.callText(), spec) }
+	emit := func(sig, msg string) {
+		if !reported(r, sig) {
+			r.Violation(sig, msg+" | calls: "+spec.callText(), spec)
+		}
+	}
 	b, where, p := build(spec)
 	if b != nil {
 		t.calls += b.Calls
@@ -357,7 +372,11 @@ func reuseCase(r *rep.Report, s []Sym, lay bool, t *tally) {
 	if lay {
 		key += " /layout=default"
 	}
-	emit := func(sig, msg string) { r.Violation(sig, msg+" | "+key+" | "+in.Scenario, in) }
+	emit := func(sig, msg string) {
+		if !reported(r, sig) {
+			r.Violation(sig, msg+" | "+key+" | "+in.Scenario, in)
+		}
+	}
 	t.cases++
 	r.Case(key, len(s) >= 1)
 
@@ -596,6 +615,9 @@ func layoutDef(r *rep.Report, spec Spec, cfgs []Layout, t *tally) bool {
 		t.calls++
 		r.Case(one.Key(), nontrivial)
 		emit := func(sig, msg string) {
+			if reported(r, sig) || reported(r, sig+"/only-after-earlier-layouts") {
+				return
+			}
 			// confirm on a fresh builder
 			var sigs []string
 			if fb, _, fp := build(one); fp == "" {
